@@ -177,9 +177,9 @@ def _make_args(rng, fname, nargs, dtype, layout, dask, H, W):
         if fname == 'viewshed' and np.dtype(dt).kind in 'iu' and np.dtype(dt).itemsize >= 4 and rng.random() < 0.5:
             a = a + (2 ** 24 + 1)                   # values a float32 cannot hold: 'may widen the dtype without changing a value'
         arr = a.astype(dt)
-        if np.dtype(dt).kind == 'f' and rng.random() < 0.3 and fname not in ('perlin', 'generate_terrain', 'viewshed', 'a_star_search', 'polygonize') and not fname.startswith('local.'):
+        if np.dtype(dt).kind == 'f' and rng.random() < 0.35 and fname not in ('perlin', 'generate_terrain', 'viewshed', 'a_star_search', 'polygonize') and not fname.startswith('local.'):
             arr[rng.random((H, W)) < 0.1] = np.nan
-            if rng.random() < 0.4:
+            if rng.random() < 0.6:
                 arr[rng.random((H, W)) < 0.08] = np.inf; arr[rng.random((H, W)) < 0.04] = -np.inf
         arr = gen.layout(arr, layout)
         chunks = None
